@@ -96,6 +96,9 @@ def gen_workload(w, families=("json", "json", "json", "yaml", "xml", "xml", "csv
     rel = w.random()
     if fam in ("json", "yaml", "plist"):
         shape = w.random()
+        if shape < 0.2 and fam != "plist":
+            a, b = gen.gen_renamed_dicts(w)      # the matcher has to pair renamed keys; near-ties between pairings
+            return {"family": fam, "a": a, "b": b, "opts": dict(opts, allow_key_edits=True)}
         if shape < 0.35:
             a = biased_lists(w)
         else:
